@@ -4,6 +4,8 @@ import (
 	"bufio"
 	"bytes"
 	"fmt"
+	"hash/crc32"
+	"io"
 	"math/rand"
 	"strconv"
 	"strings"
@@ -18,7 +20,7 @@ type respStream struct{}
 
 func (respStream) Name() string { return "resp" }
 func (respStream) Rule() string {
-	return "request id (edge-biased 0..2^31-1), constructor (general/bind/extended/searchDone/entry/modify), a random subset AND order of options (also unsupported ones), a random setter sequence, result codes 0..32767, application codes 0..30, strings empty/binary/>127/>65535 bytes, attribute maps (at most one key so that the wire order is defined) plus AddAttribute sequences, control lists of every kind on Bind/SearchDone; bytes written by ResponseWriter.Write compared with the model's bytes; oracle: an independent strict reader recovers exactly the last values set; non-trivial = at least one option or setter, distinct by case"
+	return "request id (edge-biased 0..2^31-1), constructor (general/bind/extended/searchDone/entry/modify), a random subset AND order of options (also unsupported ones), a random setter sequence, result codes 0..32767, application codes 0..30, strings empty/binary/>127/>65535 bytes, attribute maps (at most one key so that the wire order is defined) plus AddAttribute sequences, control lists of every kind on Bind/SearchDone; the response is written once at the end and, in two cases of three, also earlier (after construction / after every setter); bytes written by the last ResponseWriter.Write compared with the model's bytes; oracle: an independent strict reader recovers exactly the last values set; non-trivial = at least one option or setter, distinct by case"
 }
 
 func genAttrDesc(rng *rand.Rand) (string, string, []string) {
@@ -189,6 +191,20 @@ func buildResponse(rc respCase) (gldap.Response, []byte, error) {
 	case "modify":
 		resp = req.NewModifyResponse(opts...)
 	}
+	// a response object may be written more than once; what a Write sends is the state at that moment. Depending
+	// on the case the response is also written (to nowhere) right after construction, or after every setter.
+	early := int(crc32.ChecksumIEEE([]byte(rc.ctor+strings.Join(rc.opts, " ")+strings.Join(rc.sets, " ")))) % 3
+	writeNowhere := func() {
+		if resp == nil {
+			return
+		}
+		if w, err := gldap.VerifNewResponseWriter(bufio.NewWriter(io.Discard), &sync.Mutex{}, 1, 1); err == nil {
+			_ = w.Write(resp)
+		}
+	}
+	if early >= 1 {
+		writeNowhere()
+	}
 	for _, s := range rc.sets {
 		kv := strings.SplitN(s, ":", 2)
 		switch kv[0] {
@@ -221,6 +237,9 @@ func buildResponse(rc respCase) (gldap.Response, []byte, error) {
 				n, v := parseAttrItem(kv[1])
 				r.AddAttribute(n, v)
 			}
+		}
+		if early == 2 {
+			writeNowhere()
 		}
 	}
 	var out bytes.Buffer
